@@ -12,6 +12,10 @@ import Mathlib.Tactic.Positivity
 import Mathlib.Tactic.NormNum
 import Mathlib.Tactic.FieldSimp
 import Mathlib.Tactic.Ring
+import Mathlib.Data.Set.Finite.Lemmas
+import Mathlib.Data.Finite.Prod
+import Mathlib.Order.Interval.Finset.Defs
+import Mathlib.Data.Int.Interval
 
 namespace Sygma.Binary64
 
@@ -164,5 +168,20 @@ theorem sat_exact' (d : ℕ) (hd : d ≤ 21 * 10^14) (v p : ℚ)
     subst hp0
     simp
   · exact sat_exact d hpos hd v p hv hp
+
+/-- there are finitely many finite binary64 values -/
+theorem f64_finite : {v : ℚ | IsF64 v}.Finite := by
+  have h : {v : ℚ | IsF64 v} ⊆ (fun p : ℤ × ℤ => (p.1 : ℚ) * (2:ℚ) ^ p.2) '' (Set.Icc (-(2^53 : ℤ)) (2^53) ×ˢ Set.Icc (-1074 : ℤ) 971) := by
+    rintro v ⟨m, e, hm, he1, he2, rfl⟩
+    refine ⟨(m, e), ⟨⟨?_, ?_⟩, ⟨he1, he2⟩⟩, rfl⟩
+    · have := abs_lt.1 hm; omega
+    · have := abs_lt.1 hm; omega
+  exact (((Set.finite_Icc (-(2^53 : ℤ)) (2^53)).prod (Set.finite_Icc (-1074 : ℤ) 971)).image _).subset h
+
+/-- every rational has a nearest binary64 value (the set of finite binary64 values is finite and non-empty) -/
+theorem exists_rn (q : ℚ) : ∃ v, IsRN q v := by
+  have hne : {v : ℚ | IsF64 v}.Nonempty := ⟨0, 0, 0, by norm_num, by norm_num, by norm_num, by norm_num⟩
+  obtain ⟨v, hv, hmin⟩ := Set.exists_min_image _ (fun w => |q - w|) f64_finite hne
+  exact ⟨v, hv, fun w hw => hmin w hw⟩
 
 end Sygma.Binary64
